@@ -44,7 +44,12 @@ def h_insert_remove(cx, sp, d, r, r2, via='operations', after_sibling=False):
     x = cx.real('x', param=True)
     cx.assume(x > kv[p], check=False)
     cx.assume(x < kv[len(kv) - p - 1], check=False)
-    cx.snap(x, kv)
+    if sp.get('kscaled'):
+        # knot vectors of any scale down to a domain of length 4e-6: still ten times the 1e-7 multiplicity tolerance
+        cx.assume(kv[-1] - kv[0] >= F(4, 10 ** 6), check=False)
+        cx.snap(x, kv, eps=F(2, 10 ** 7))
+    else:
+        cx.snap(x, kv, eps=F(1, 10 ** 6))      # (insertion and removal use the linear span search: only the 1e-7 multiplicity tolerance matters)
     s = shapes.multiplicity(cx, x, kv)
     if r > p - s:
         cx.assume(False)
@@ -88,7 +93,7 @@ def h_insert_remove_multi(cx, sp, dirs, via='operations'):
         x = cx.real('x' + shapes.DIRS[d], param=True)
         cx.assume(x > kv[p], check=False)
         cx.assume(x < kv[len(kv) - p - 1], check=False)
-        cx.snap(x, kv)
+        cx.snap(x, kv, eps=F(1, 10 ** 6))
         if shapes.multiplicity(cx, x, kv) >= p:
             cx.assume(False)
         xs[d], nums[d] = x, 1
@@ -146,6 +151,9 @@ def instances(tier):
         if not any(i.name == nm for i in out):
             out.append(inst(nm, h_insert_remove, timeout=timeout, sp=sp, d=d, r=r, r2=r2, via=via, after_sibling=after_sibling))
 
+    add(spec('curve', (2,), ((1, 1),), rational=False, kscaled=True), 0, 1, 1)
+    add(spec('curve', (3,), ((1,),), rational=True, kscaled=True), 0, 2, 2, via='method')
+    add(spec('surface', (1, 2), ((1,), (1,)), rational=False, kscaled=True), 1, 1, 1, timeout=1200)
     add(spec('curve', (2,), ((1, 1),), rational=False, shifted=True), 0, 1, 1)
     add(spec('curve', (3,), ((2,),), rational=True, shifted=True), 0, 1, 1, via='method')
     add(spec('surface', (1, 2), ((1,), (1,)), rational=False, shifted=True), 1, 2, 2, timeout=1200)
